@@ -231,7 +231,7 @@ func main() {
 	required := []string{"hash.sha2_256", "hash.sha2_384", "hash.sha3_256", "hash.sha3_384", "hash.keccak_256",
 		"hash.sha3_256.split", "hash.oneshot", "kmac", "kmac.split", "prg",
 		"ecdsa.keygen.p256", "ecdsa.keygen.secp256k1", "ecdsa.decode.p256", "ecdsa.decode.secp256k1", "ecdsa.verify.p256", "ecdsa.verify.secp256k1",
-		"bls.keygen", "bls.decode", "bls.sign", "bls.agg", "bls.agg.manymsg", "bls.batch", "bls.spock", "bls.thr", "bls.dkg"}
+		"bls.keygen", "bls.decode", "bls.sign", "bls.agg", "bls.agg.manymsg", "bls.batch", "bls.spock", "bls.thr", "bls.thr.keys", "bls.dkg"}
 	for _, s := range required {
 		if def.sections[s] < 50 {
 			run.Fatal("default transcript has only %d lines in section %s (expected a populated section): the transcript program did not run as designed", def.sections[s], s)
